@@ -277,7 +277,7 @@ def reach_set(uni, start, d, k, via):
 
 class C06(TravBase):
     id = "C06"
-    modules = ["EG.Props.C06", "EG.Props.C06World"]
+    modules = ["EG.Props.C06", "EG.Props.C06World", "EG.Props.C07World"]
 
     def oracle(self, real, line, out, pre):
         w = line.split()[0]
@@ -356,7 +356,7 @@ def textbook(kind, uni, start, d, k, via):
 
 class C07(TravBase):
     id = "C07"
-    modules = ["EG.Props.C07"]
+    modules = ["EG.Props.C07", "EG.Props.C07World"]
 
     def oracle(self, real, line, out, pre):
         w = line.split()[0]
